@@ -72,6 +72,10 @@ def to_world_action(world, bind, la):
         return pre + [{"a": "ConnOpen", "c": c, "welcome_error": x == "error"}]
     if a == "ConnFail":
         return [{"a": "ConnFail", "c": c}]
+    if a == "ConnAbort":
+        if world._attempt_of(cl) is None:
+            pre.append({"a": "Retry", "c": c})
+        return pre + [{"a": "ConnAbort", "c": c}]
     conn = world.live_conn(cl) if cl is not None else None
     k = conn.id if conn is not None else 0
     if a in ("Serve", "Deliver", "LateDeliver", "Drop", "CloseDone"):
